@@ -13,7 +13,10 @@ let n2i = int_of_nat
 let words s = List.filter (fun x -> x <> "") (String.split_on_char ' ' (String.trim s))
 
 let kind_of_string = function
-  | "ok" | "okL" | "okB" | "okE" -> KOk | "missing" -> KMissing | "garbage" -> KGarbage | "badhdr" -> KBadHdr | "dir" -> KDir
+  | "ok" | "okL" | "okB" | "okE" -> KOk | "missing" -> KMissing | "garbage" -> KGarbage | "badhdr" -> KBadHdr (i2n 0) | "dir" -> KDir
+  | "empty" | "xg" -> KGarbage                     (* no ADF signature in the first 32 bytes: refused by cgio_check_file *)
+  | s when String.length s > 1 && s.[0] = 'x' ->   (* x<code>: ADF signature intact, ADF_Database_Open refuses with that error *)
+      KBadHdr (i2n (int_of_string (String.sub s 1 (String.length s - 1))))
   | s -> failwith ("kind " ^ s)
 
 
